@@ -22,11 +22,14 @@ GUARD = "MDPAX_VERIF"
 ALLOWED_AXIOMS = {"propext", "Classical.choice", "Quot.sound"}
 FORBIDDEN = re.compile(r"\bsorry\b|\badmit\b|^axiom\s|native_decide|bv_decide|implemented_by|\bunsafe\s|maxHeartbeats\s+0")
 
+TRANSLATED = {"C18", "C20"}     # properties whose Lean module imports definitions generated from the Python source
+
 TRUSTED_BASE = [
     "Lean 4.33.0 kernel (leanchecker re-check in the thorough tier); Mathlib v4.33.0 as checked library",
     "axioms of every property theorem ⊆ {propext, Classical.choice, Quot.sound}; no sorry/admit/native_decide/bv_decide/own axioms (grep + #print axioms audit on every run)",
     "Lean evaluator running MdpaxV/Model at Rat in Driver.lean",
     "hand-written model (MdpaxV/Model/*.lean) tied to /repo by this correspondence harness (harness/*.py): behaviours no generated input exercises are not tied",
+    "harness/translate.py (Python AST -> Lean for BatchProcessor.__init__ and get_convergence_format; `//` as Int.fdiv, min/max, if/else): trusted to render the Python faithfully",
     "modelled, not verified: float64 as an ordered field (rounding/inf/NaN/int32 wrap outside), XLA vmap/scan/pmap as map/fold/map, JAX gather clamping and argmax=first maximum, Orbax/OS/Hydra/OmegaConf internals, special functions",
 ]
 
@@ -59,6 +62,23 @@ class LeanAudit:
         src = LEAN / "MdpaxV" / "Props" / f"{self.prop}.lean"
         text = src.read_text()
         self.obligations = re.findall(r"^theorem\s+(\S+)", text, flags=re.M)
+        # tie by translation (C18, C20): regenerate MdpaxV/Gen/Code.lean from /repo's source before building; the theorems of
+        # Theory/GenTie.lean (restated in the property files) then re-prove "translated code = model" against what the code says now
+        self.translator = None
+        if self.prop in TRANSLATED:
+            from harness import translate
+            try:
+                changed, _ = translate.generate()
+                self.translator = "regenerated-changed" if changed else "regenerated-identical"
+                self.cmds.append("python3 harness/translate.py  (MdpaxV/Gen/Code.lean from src/mdpax/utils/{batch_processing,logging}.py)")
+            except translate.Untranslatable as e:
+                self.translator = f"untranslatable: {e}"
+                self.log += f"translator: {e}\n"
+                self.failed = list(self.obligations)
+                self.axioms = {}
+                self.forbidden_hits = []
+                self.ok = False
+                return self
         cmd = ["lake", "build", "MdpaxV", mod]      # the library root = every model module the driver imports
         self.cmds.append("cd lean && " + " ".join(cmd))
         p = subprocess.run(cmd, cwd=LEAN, capture_output=True, text=True)
@@ -253,6 +273,7 @@ def finish(prop: str, tier: str, seed: int, audit: LeanAudit, res: Result, t0: f
             "theorems": audit.obligations,
             "evaluations": res.evaluations, "distinct_nontrivial": len(res.nontrivial), "rule": res.rule,
             "samples": res.samples or ["(none)"], "ambiguous": res.ambiguous, "histogram": res.hist,
+            "translator": getattr(audit, "translator", None),
             "exhaustive": res.exhaustive, "known_findings_hit": [k["key"] for k in known_hit],
             "disagreements": len(res.disagreements), "notes": res.notes,
         },
